@@ -126,6 +126,10 @@ func (la *lockAnalysis) expr(e ast.Node, held lset, w map[string]bool) {
 				}
 			}
 			switch {
+			case fs == "hnd.cb":
+				// the sink callback of a client-side channel handler: delivery of a value and the closing of the sink
+				// are serialised by the handler's own mutex
+				la.record("sink-callback", fs, held, v.Pos())
 			case strings.HasSuffix(fs, ".WriteControl"):
 				la.record("conn-control", fs, held, v.Pos())
 			case strings.HasSuffix(fs, "conn.WriteJSON"), strings.HasSuffix(fs, "conn.WriteMessage"), strings.HasSuffix(fs, "conn.NextWriter"):
